@@ -644,3 +644,275 @@ Lemma C01_old_code_refuted_thm :
   /\ fst (frames_of (chunks_of witness_evs)) = [firstn 22 witness_frame1]
   /\ filter is_deliver (run witness_evs) = [Deliver 7 50 DEVICE_PROTO_VERSION [1;2;3;4]].
 Proof. vm_compute. repeat split; reflexivity. Qed.
+
+(* ================= progress: enough iterate ticks deliver everything or report ================= *)
+
+(* one iterate, described purely in terms of the chunk-free parser applied to the unparsed input *)
+Lemma iterate_spec s :
+  Inv1 s -> halted s = false ->
+  let '(s', o) := iterate false s in
+  Inv1 s' /\
+  ( (o = [Restart] /\ halted s' = true)
+    \/ (exists f, o = [deliver_of_frame f] /\ halted s' = false /\
+                  parse1 (unparsed s) = Frame f (unparsed s') /\ (length (stage s') <= length (stage s))%nat)
+    \/ (o = [] /\ halted s' = false /\ unparsed s' = unparsed s /\
+        (stage s = [] -> parse1 (unparsed s) = Incomplete /\ stage s' = []) /\
+        (stage s <> [] -> (length (stage s') < length (stage s))%nat)) ).
+Proof.
+  intros [Hib Hst Hstl Hsdp] Hh.
+  destruct consts_ok as [Ctl Ctp Chdr Cov Corr Coc Cods Codata Cmaxd Chp Cbmin Cbmax Cfits Csb Cnw Crm].
+  pose proof (len_nonneg (stage s)) as Hsl0.
+  unfold iterate.
+  set (n := if SRPC_BUFFER <? len (stage s) then SRPC_BUFFER else len (stage s)).
+  assert (Hn : 0 <= n <= len (stage s) /\ n <= SRPC_BUFFER /\ (stage s <> [] -> 0 < n)).
+  { unfold n; destruct (SRPC_BUFFER <? len (stage s)) eqn:E; [apply Z.ltb_lt in E|apply Z.ltb_ge in E]; repeat split; try lia.
+    intros Hne. destruct (stage s); [congruence|]. rewrite len_cons in *. pose proof (len_nonneg l). lia. }
+  set (chunk := take n (stage s)). set (stage' := drop n (stage s)).
+  assert (Hsplit : stage s = chunk ++ stage') by (symmetry; apply take_drop).
+  assert (Hck : bytes_ok chunk) by (apply bytes_ok_take; assumption).
+  assert (Hst' : bytes_ok stage') by (apply bytes_ok_drop; assumption).
+  assert (Hstl' : len stage' <= RECVBUFF_MAX) by (unfold stage'; rewrite len_drop by lia; lia).
+  assert (Hclen : len chunk <= SRPC_BUFFER) by (unfold chunk; rewrite len_take by lia; lia).
+  assert (Hlen' : len stage' = len (stage s) - n) by (unfold stage'; rewrite len_drop by lia; lia).
+  assert (Hob : forall b, (if 0 <? n then append (ib s) chunk else Some (ib s)) = Some b ->
+                InvB b /\ data b ++ stage' = unparsed s /\ (stage s = [] -> b = ib s /\ stage' = [])).
+  { intros b. destruct (0 <? n) eqn:E0.
+    - intros Ha. destruct (append_inv _ _ _ Hib Hck Hclen Ha) as (I & D & _).
+      split; [exact I|]. split.
+      + rewrite D. unfold unparsed. rewrite Hsplit, app_assoc. reflexivity.
+      + intros Hnil. rewrite Hnil in Hn. cbn in Hn. apply Z.ltb_lt in E0. lia.
+    - intros Ha; inversion Ha; subst b. split; [exact Hib|]. split.
+      + apply Z.ltb_ge in E0. assert (n = 0) by lia. unfold unparsed, stage'. rewrite H. reflexivity.
+      + intros Hnil. split; [reflexivity|]. unfold stage', drop. rewrite Hnil. destruct (Z.to_nat n); reflexivity. }
+  destruct (if 0 <? n then append (ib s) chunk else Some (ib s)) as [b|] eqn:Eob.
+  2:{ split; [constructor; cbn [ib stage sdp]; assumption|]. left. split; reflexivity. }
+  destruct (Hob b eq_refl) as (Ib & Hun & Hsame).
+  pose proof (pop_refines b (sdp s) Ib) as HR.
+  pose proof (pop_inv false b (sdp s) Ib) as HI.
+  destruct (pop false b (sdp s)) as [[b' sdp'] r]. cbn [fst] in HI.
+  destruct HR as [Hr HM].
+  assert (Hbb : bytes_ok (data b)) by (destruct Ib; assumption).
+  assert (Hshorter : (length stage' <= length (stage s))%nat) by (unfold len in Hlen'; lia).
+  destruct (parse1 (data b)) as [f rest| | |] eqn:Ep; cbn [res_of] in Hr; subst r.
+  - destruct HM as (Hd' & Hs' & Hlf & Hmax).
+    destruct (parse1_frame_shorter _ _ _ Hbb Ep) as (_ & Hbr & Hbf & Hdec).
+    pose proof (le32_range (data b) OFF_DATA_SIZE Hbb) as Hdsr.
+    assert (Hle : le32 f OFF_DATA_SIZE = le32 (data b) OFF_DATA_SIZE).
+    { rewrite Hdec. symmetry. apply le32_app_l; lia. }
+    split; [constructor; cbn [ib stage sdp]; auto|].
+    { rewrite Hs', len_app, len_drop by (apply len_nonneg). lia. }
+    right; left. exists f. split; [|split; [reflexivity|split]].
+    + rewrite Hs'. rewrite deliver_sdp_frame by (auto; lia). reflexivity.
+    + rewrite <- Hun. unfold unparsed; cbn [ib stage]. rewrite Hd'.
+      rewrite (parse1_app (data b) stage' Hbb) by congruence. rewrite Ep. reflexivity.
+    + cbn [stage]. exact Hshorter.
+  - destruct HM as (Hd' & Hs' & Hsz'). subst sdp'.
+    split; [constructor; cbn [ib stage sdp]; auto|].
+    right; right. split; [reflexivity|]. split; [reflexivity|]. split; [|split].
+    + unfold unparsed at 1; cbn [ib stage]. rewrite Hd'. exact Hun.
+    + intros Hnil. destruct (Hsame Hnil) as [Hb' Hst0]. cbn [stage]. split; [|exact Hst0].
+      unfold unparsed. rewrite Hnil, app_nil_r. rewrite <- Hb'. exact Ep.
+    + intros Hne. cbn [stage]. destruct Hn as (Hn1 & Hn2 & Hn3). specialize (Hn3 Hne). unfold len in Hlen'. lia.
+  - split; [constructor; cbn [ib stage sdp]; auto|]. 2: left; split; reflexivity.
+    destruct HM as (_ & Hs'). subst sdp'. exact Hsdp.
+  - split; [constructor; cbn [ib stage sdp]; auto|]. 2: left; split; reflexivity.
+    destruct HM as (_ & Hs'). subst sdp'. exact Hsdp.
+Qed.
+
+Definition bad_status (st : status) : nat := match st with StIncomplete => 0 | _ => 1 end.
+Definition mu (s : st) : nat :=
+  (length (stage s) + length (fst (frames_of (unparsed s))) + bad_status (snd (frames_of (unparsed s))))%nat.
+
+Lemma unparsed_ok s : Inv1 s -> bytes_ok (unparsed s).
+Proof. intros [[A _ _ _ _] B _ _]. unfold unparsed. apply bytes_ok_app; split; assumption. Qed.
+
+(* After the last chunk, mu(s) further ticks either report an error (restart) or deliver every
+   remaining frame of the stream and leave an incomplete (possibly empty) tail. *)
+Lemma ticks_complete k : forall s,
+  Inv1 s -> halted s = false -> (mu s <= k)%nat ->
+  let '(s', o) := run_from false s (repeat Tick k) in
+  In Restart o \/
+  (filter is_deliver o = map deliver_of_frame (fst (frames_of (unparsed s))) /\
+   snd (frames_of (unparsed s)) = StIncomplete /\ ~ In Overflow o).
+Proof.
+  induction k as [|k IH]; intros s I1 Hh Hmu.
+  - cbn [repeat run_from]. right. unfold mu in Hmu.
+    destruct (frames_of (unparsed s)) as [l st]; cbn [fst snd] in *.
+    destruct l; [|cbn in Hmu; lia]. destruct st; cbn in Hmu; try lia.
+    split; [reflexivity|]. split; [reflexivity|]. cbn; tauto.
+  - cbn [repeat run_from]. unfold step. rewrite Hh.
+    pose proof (iterate_spec s I1 Hh) as HS.
+    destruct (iterate false s) as [s1 o1]. destruct HS as (I1' & HS).
+    pose proof (unparsed_ok s I1) as HU.
+    destruct HS as [(Ho & Hh1) | [(f & Ho & Hh1 & Hp & Hlen) | (Ho & Hh1 & Hun & Hnil & Hne)]].
+    + subst o1. destruct (run_from false s1 (repeat Tick k)) as [s2 o2]. left. cbn. left; reflexivity.
+    + subst o1.
+      assert (Hfr : frames_of (unparsed s) = (f :: fst (frames_of (unparsed s1)), snd (frames_of (unparsed s1)))).
+      { rewrite (frames_of_step _ HU), Hp. reflexivity. }
+      assert (Hmu1 : (mu s1 <= k)%nat).
+      { unfold mu in *. rewrite Hfr in Hmu. cbn [fst snd length] in Hmu. lia. }
+      specialize (IH s1 I1' Hh1 Hmu1).
+      destruct (run_from false s1 (repeat Tick k)) as [s2 o2].
+      destruct IH as [Hr | (Hd & Hst & Hno)].
+      * left. apply in_or_app. right; exact Hr.
+      * right. rewrite Hfr. cbn [fst snd]. split; [|split; [exact Hst|]].
+        -- cbn [app filter is_deliver map]. unfold deliver_of_frame at 1. cbn [is_deliver]. f_equal. exact Hd.
+        -- cbn [app]. intros [H|H]; [unfold deliver_of_frame in H; discriminate|tauto].
+    + subst o1. cbn [app].
+      assert (Hmu1 : (mu s1 <= k)%nat).
+      { unfold mu in *. rewrite Hun.
+        destruct (stage s) as [|x xs] eqn:Est.
+        - destruct (Hnil eq_refl) as [Hp Hs1]. rewrite Hs1. cbn [length].
+          rewrite (frames_of_step _ HU), Hp. cbn. lia.
+        - assert (Hx : x :: xs <> []) by discriminate. specialize (Hne Hx). lia. }
+      specialize (IH s1 I1' Hh1 Hmu1). rewrite Hun in IH.
+      destruct (run_from false s1 (repeat Tick k)) as [s2 o2]. exact IH.
+Qed.
+
+Lemma run_from_app sc a : forall s b,
+  run_from sc s (a ++ b) =
+  let '(s1, o1) := run_from sc s a in let '(s2, o2) := run_from sc s1 b in (s2, o1 ++ o2).
+Proof.
+  induction a as [|e a IH]; intros s b.
+  - cbn [app run_from]. destruct (run_from sc s b); reflexivity.
+  - cbn [app run_from]. destruct (step sc s e) as [s1 o1]. rewrite IH.
+    destruct (run_from sc s1 a) as [s2 o2]. destruct (run_from sc s2 b) as [s3 o3].
+    rewrite app_assoc. reflexivity.
+Qed.
+
+Lemma frames_count k : forall s l st, bytes_ok s -> frames k s = (l, st) -> (length l <= length s)%nat.
+Proof.
+  induction k as [|k IH]; intros s l st Hb; cbn [frames].
+  - intros H; injection H as <- _. cbn; lia.
+  - destruct (parse1 s) as [f r| | |] eqn:E; try (intros H; injection H as <- _; cbn; lia).
+    destruct (parse1_frame_shorter s f r Hb E) as (Hlt & Hbr & _).
+    destruct (frames k r) as [l' st'] eqn:Ef. intros H; injection H as <- _.
+    specialize (IH r l' st' Hbr Ef). cbn [length]. lia.
+Qed.
+
+(* structural facts about one step that do not need the Parsed invariant *)
+Lemma step_struct s e :
+  Inv1 s -> ev_ok e ->
+  let '(s', o) := step false s e in
+  Inv1 s' /\
+  (halted s' = true -> halted s = true \/ In Restart o) /\
+  (halted s' = false -> ~ In Overflow o -> exists C, unparsed s ++ ev_bytes e = C ++ unparsed s').
+Proof.
+  intros I1 He. unfold step.
+  destruct (halted s) eqn:Hh.
+  { split; [exact I1|]. split; [tauto|]. intros Hc; congruence. }
+  assert (Hit : forall s0, Inv1 s0 -> halted s0 = false ->
+            let '(s', o) := iterate false s0 in
+            Inv1 s' /\ (halted s' = true -> In Restart o) /\
+            (halted s' = false -> exists C, unparsed s0 = C ++ unparsed s')).
+  { intros s0 I0 H0. pose proof (iterate_spec s0 I0 H0) as HS. destruct (iterate false s0) as [s' o].
+    destruct HS as (I' & HS). split; [exact I'|].
+    destruct HS as [(Ho & Hh1) | [(f & Ho & Hh1 & Hp & Hlen) | (Ho & Hh1 & Hun & _)]].
+    - split; [intros _; subst o; left; reflexivity|intros Hc; congruence].
+    - split; [intros Hc; congruence|]. intros _.
+      destruct (parse1_frame_shorter _ _ _ (unparsed_ok s0 I0) Hp) as (_ & _ & _ & Hdec).
+      exists (f ++ TAG). rewrite <- app_assoc. exact Hdec.
+    - split; [intros Hc; congruence|]. intros _. exists []. rewrite Hun. reflexivity. }
+  destruct e as [chunk|]; cbn [ev_bytes ev_ok] in *.
+  - destruct (len chunk =? 0) eqn:E0.
+    { apply Z.eqb_eq in E0. assert (chunk = []) by (destruct chunk; [reflexivity|rewrite len_cons in E0; pose proof (len_nonneg chunk); lia]).
+      subst chunk. split; [exact I1|]. split; [intros Hc; congruence|]. intros _ _. exists []. rewrite app_nil_r. reflexivity. }
+    destruct (len chunk <=? RECVBUFF_MAX - len (stage s)) eqn:E1.
+    + apply Z.leb_le in E1.
+      set (s1 := {| stage := stage s ++ chunk; ib := ib s; sdp := sdp s; halted := false |}).
+      assert (I1' : Inv1 s1).
+      { destruct I1 as [A B C D]. constructor; cbn [ib stage sdp s1]; auto.
+        - apply bytes_ok_app; split; assumption.
+        - rewrite len_app; lia. }
+      specialize (Hit s1 I1' eq_refl). destruct (iterate false s1) as [s' o].
+      destruct Hit as (A & B & C). split; [exact A|]. split; [intros H; right; exact (B H)|].
+      intros H _. destruct (C H) as [C0 HC]. exists C0. rewrite <- HC.
+      unfold unparsed; cbn [ib stage s1]. rewrite app_assoc. reflexivity.
+    + split; [exact I1|]. split; [intros Hc; congruence|]. intros _ Hno. exfalso. apply Hno. left; reflexivity.
+  - specialize (Hit s I1 Hh). destruct (iterate false s) as [s' o].
+    destruct Hit as (A & B & C). split; [exact A|]. split; [intros H; right; exact (B H)|].
+    intros H _. rewrite app_nil_r. exact (C H).
+Qed.
+
+Lemma halted_stays sc evs : forall s, halted s = true -> run_from sc s evs = (s, []).
+Proof.
+  induction evs as [|e evs IH]; intros s Hh; cbn [run_from]; [reflexivity|].
+  unfold step. rewrite Hh. rewrite (IH s Hh). reflexivity.
+Qed.
+
+Lemma run_struct evs : forall s,
+  Inv1 s -> Forall ev_ok evs ->
+  let '(s', o) := run_from false s evs in
+  Inv1 s' /\
+  (halted s' = true -> halted s = true \/ In Restart o) /\
+  (halted s' = false -> ~ In Overflow o -> exists C, unparsed s ++ chunks_of evs = C ++ unparsed s').
+Proof.
+  induction evs as [|e evs IH]; intros s I1 Hok.
+  - cbn [run_from]. split; [exact I1|]. split; [tauto|]. intros _ _. exists []. unfold chunks_of; cbn. rewrite app_nil_r. reflexivity.
+  - cbn [run_from]. inversion Hok as [|e' evs' He Hok']; subst.
+    pose proof (step_struct s e I1 He) as HS. destruct (step false s e) as [s1 o1]. destruct HS as (I1' & Hh1 & Hs1).
+    specialize (IH s1 I1' Hok'). destruct (run_from false s1 evs) as [s2 o2] eqn:Hrun. destruct IH as (I2 & Hh2 & Hs2).
+    split; [exact I2|]. split.
+    + intros H. destruct (Hh2 H) as [H1|H1].
+      * destruct (Hh1 H1) as [H0|H0]; [left; exact H0|right; apply in_or_app; left; exact H0].
+      * right; apply in_or_app; right; exact H1.
+    + intros H Hno.
+      assert (Hno1 : ~ In Overflow o1) by (intros X; apply Hno; apply in_or_app; left; exact X).
+      assert (Hno2 : ~ In Overflow o2) by (intros X; apply Hno; apply in_or_app; right; exact X).
+      assert (Hh1f : halted s1 = false).
+      { destruct (halted s1) eqn:E; [|reflexivity]. exfalso.
+        (* a halted state stays halted *)
+        rewrite (halted_stays false evs s1 E) in Hrun. injection Hrun as <- _. congruence. }
+      destruct (Hs1 Hh1f Hno1) as [C1 HC1]. destruct (Hs2 H Hno2) as [C2 HC2].
+      exists (C1 ++ C2). unfold chunks_of in *. cbn [map concat].
+      change (match e with Recv c => c | Tick => [] end) with (ev_bytes e).
+      rewrite app_assoc, HC1, <- app_assoc, HC2, app_assoc. reflexivity.
+Qed.
+
+(* The "reported as an error" clause for arbitrary chunkings: after any history without dropped
+   chunks, 2*|stream|+1 further iterate ticks either restart the device or have delivered every
+   frame of the stream with only an incomplete tail left; hence a stream that contains a malformed
+   frame always ends in a restart, and it is never swallowed silently. *)
+Theorem C01_complete_thm evs k :
+  Forall ev_ok evs -> (2 * length (chunks_of evs) + 1 <= k)%nat ->
+  let o := run (evs ++ repeat Tick k) in
+  no_overflow o ->
+  In Restart o \/
+  (filter is_deliver o = map deliver_of_frame (fst (frames_of (chunks_of evs))) /\
+   snd (frames_of (chunks_of evs)) = StIncomplete).
+Proof.
+  intros Hok Hk. unfold run, CURRENT_SUMCHECK. rewrite run_from_app.
+  assert (P0 : Parsed init [] []).
+  { split; [constructor|]. cbn [halted init]. intros X _. unfold unparsed; cbn [init ib stage data app].
+    destruct (frames_of X); reflexivity. }
+  pose proof (run_inv evs init [] [] Inv1_init P0 Hok) as HI.
+  pose proof (run_struct evs init Inv1_init Hok) as HS.
+  destruct (run_from false init evs) as [s1 o1]. destruct HI as (I1 & _ & HI). destruct HS as (_ & Hhalt & Hsuf).
+  destruct (halted s1) eqn:Hh1.
+  { (* already restarted *)
+    destruct (run_from false s1 (repeat Tick k)) as [s2 o2]. cbn [snd]. intros _. left.
+    destruct (Hhalt eq_refl) as [H|H]; [cbn in H; discriminate|]. apply in_or_app; left; exact H. }
+  pose proof (ticks_complete k s1 I1 Hh1) as HT.
+  destruct (run_from false s1 (repeat Tick k)) as [s2 o2] eqn:Hrun2. cbn [snd].
+  intros Hno.
+  assert (Hno1 : no_overflow o1) by (intros X; apply Hno; apply in_or_app; left; exact X).
+  destruct (HI Hno1) as (F1 & HP1 & HD1). cbn [app] in HP1.
+  destruct (Hsuf eq_refl Hno1) as [C HC]. unfold unparsed at 1 in HC. cbn [init ib stage data app] in HC.
+  pose proof (unparsed_ok s1 I1) as HU.
+  assert (Hbound : (mu s1 <= k)%nat).
+  { unfold mu.
+    assert (H1 : (length (stage s1) <= length (unparsed s1))%nat) by (unfold unparsed; rewrite app_length; lia).
+    assert (H2 : (length (fst (frames_of (unparsed s1))) <= length (unparsed s1))%nat).
+    { unfold frames_of. destruct (frames (S (length (unparsed s1))) (unparsed s1)) as [l st] eqn:E. cbn [fst].
+      eapply frames_count; eauto. }
+    assert (H3 : (length (unparsed s1) <= length (chunks_of evs))%nat) by (rewrite HC, app_length; lia).
+    assert (H4 : (bad_status (snd (frames_of (unparsed s1))) <= 1)%nat) by (destruct (snd (frames_of (unparsed s1))); cbn; lia).
+    lia. }
+  specialize (HT Hbound).
+  destruct HT as [Hr | (Hd & Hst & _)].
+  - left. apply in_or_app; right; exact Hr.
+  - right. destruct HP1 as [HSb HP1]. rewrite Hh1 in HP1.
+    specialize (HP1 [] ltac:(constructor)). rewrite !app_nil_r in HP1.
+    rewrite HP1. cbn [fst snd]. split; [|exact Hst].
+    rewrite filter_app, HD1, Hd, map_app. reflexivity.
+Qed.
